@@ -30,13 +30,14 @@ import (
 )
 
 type bigSaveCase struct {
-	Seed     uint64 `json:"seed"`
-	Records  int    `json:"records"`   // in the base set
-	ScriptLn int    `json:"script_len"`
-	Compress bool   `json:"compress_utxo"`
-	Procs    int    `json:"gomaxprocs"`
-	DelaysUs []int  `json:"delays_us"` // per round: time between the start of the save and the aborting commit
-	Undo     bool   `json:"undo"`      // every third round the save is interrupted by an undo of the tip block instead
+	Seed      uint64 `json:"seed"`
+	Records   int    `json:"records"` // in the base set
+	ScriptLn  int    `json:"script_len"`
+	Compress  bool   `json:"compress_utxo"`
+	Procs     int    `json:"gomaxprocs"`
+	DelaysUs  []int  `json:"delays_us"`            // per round: time between the start of the save and the aborting commit
+	Undo      bool   `json:"undo"`                 // every third round the save is interrupted by an undo of the tip block instead
+	CloseRace bool   `json:"close_race,omitempty"` // at the end: Idle, then Close as soon as the set is clean
 }
 
 func init() {
@@ -71,7 +72,7 @@ func bigRec(seed uint64, tag byte, a, b int, height uint32, scriptLen int) *utxo
 	return rec
 }
 
-type bigStats struct{ aborted, completed, filesChecked, undos int }
+type bigStats struct{ aborted, completed, filesChecked, undos, closeRaces int }
 
 func runBigSave(c bigSaveCase) (st bigStats, err error) {
 	old := runtime.GOMAXPROCS(c.Procs)
@@ -147,6 +148,7 @@ func runBigSave(c bigSaveCase) (st bigStats, err error) {
 		base[i] = bigRec(c.Seed, 'b', i, 0, 1, c.ScriptLn)
 	}
 	commit(1, base)
+	var lastSavedHash [32]byte
 	lastSavedHeight := uint32(0) // (after an undo the set may be back at the height of the last snapshot: nothing to save)
 	check := func(name string) error {
 		f, e := os.Open(filepath.Join(node.Dir, name))
@@ -196,6 +198,7 @@ func runBigSave(c bigSaveCase) (st bigStats, err error) {
 			// (a save counted as "still running" when the interruption came may have completed all the same: what
 			// the last snapshot is, is read from the file, not from that observation)
 			lastSavedHeight = height
+			lastSavedHash = hh
 		}
 		return nil
 	}
@@ -247,6 +250,27 @@ func runBigSave(c bigSaveCase) (st bigStats, err error) {
 			}
 		}
 	}
+	// shutdown right behind a save: Idle starts the last save, and as soon as the set is no longer dirty (the
+	// records are handed to the file writer, which may still be writing and renaming) the database is closed.  After
+	// Close returned - the process may exit - UTXO.db must be there, complete, and hold the set of the tip.
+	if c.CloseRace {
+		if db.Idle() {
+			for i := 0; i < 200000 && db.DirtyDB.Get(); i++ {
+				runtime.Gosched()
+			}
+		}
+		db.Close() // (the unspent-set database alone: Chain.Close would spend time on the block store first)
+		if _, e := os.Stat(filepath.Join(node.Dir, "UTXO.db")); e != nil {
+			return st, fmt.Errorf("after Close() right behind a save (GOMAXPROCS=%d): there is no UTXO.db (%v)", c.Procs, e)
+		}
+		if e := check("UTXO.db"); e != nil {
+			return st, fmt.Errorf("after Close() right behind a save (GOMAXPROCS=%d): %v", c.Procs, e)
+		}
+		if tip := chain[len(chain)-1].hash; lastSavedHash != tip {
+			return st, fmt.Errorf("after Close() right behind a save (GOMAXPROCS=%d): UTXO.db is the snapshot of block %x (height %d), the set was at block %x (height %d)", c.Procs, lastSavedHash[:8], lastSavedHeight, tip[:8], cur.height)
+		}
+		st.closeRaces++
+	}
 	return st, nil
 }
 
@@ -255,6 +279,7 @@ func TestAbortedBigSaves(t *testing.T) {
 		c := bigSaveCase{Seed: rapid.Uint64().Draw(r.T, "seed"), Procs: rapid.SampledFrom([]int{1, 1, 2, 4}).Draw(r.T, "procs"),
 			Compress: rapid.IntRange(0, 3).Draw(r.T, "compress") == 0}
 		c.Undo = rapid.Bool().Draw(r.T, "undo")
+		c.CloseRace = rapid.Bool().Draw(r.T, "closerace")
 		c.ScriptLn = rapid.SampledFrom([]int{200, 300}).Draw(r.T, "scriptlen")
 		c.Records = rapid.SampledFrom([]int{30000, 40000}).Draw(r.T, "records")
 		for i, n := 0, rapid.IntRange(5, 9).Draw(r.T, "rounds"); i < n; i++ {
@@ -272,6 +297,9 @@ func TestAbortedBigSaves(t *testing.T) {
 		}
 		if st.undos > 0 {
 			r.Class("save_interrupted_by_an_undo")
+		}
+		if st.closeRaces > 0 {
+			r.Class("closed_right_behind_a_save")
 		}
 		pbt.AddExtra("big_snapshot_files_checked", int64(st.filesChecked))
 		pbt.AddExtra("big_saves_aborted", int64(st.aborted))
